@@ -74,6 +74,11 @@ void yield_point() {
     pass_to(next);
     wait_turn(tl_id);
 }
+void syscall_point() {
+    if (tl_id < 0 || !g_active) return;
+    g_blocks++;
+    if (rnd() & 1) yield_point();
+}
 void thread_exit(unsigned id) {
     g_alive[id] = 0;
     tl_id = -1;
